@@ -4,12 +4,14 @@
 (* further triples (cooperative solutions) up to MaxList.                          *)
 (* Reorder gives the planning problem solutions of a cooperative solution other    *)
 (* planning problem ids, in every order (non-ascending, 12 before 3, ...).         *)
+(* Reject attempts an assignment of an invalid value that raises: no effect.       *)
 (* History dimension: SetField assigns one public field of an id another value of  *)
 (* the scope (one step; the object was printed before the assignment).             *)
 EXTENDS BenchmarkId
 CONSTANTS Countries, MapNames, MapIds, Configs, MaxList, GenMode,
           Wide,                 \* TRUE (thorough): SetField from every id, Reorder on lists with <= 1 triple outside Reps;
                                 \* FALSE: SetField from the ids generation executes, Reorder on lists of Reps
+          DEV_StoreBeforeValidate,  \* deviation (seeded, not shipped): a validating setter stores the value, then raises
           DEV_SortedIdLists,    \* deviation (seeded, not shipped): the id lists are printed in ascending planning-problem-id order
           DEV_SpellingInEq      \* deviation of the shipped code: == compares the int / list spelling of the prediction ids
 
@@ -91,11 +93,30 @@ SetField ==
           /\ c' = [kind |-> "set", pk |-> c.pk, f |-> c.f, fld |-> fld, b |-> b,
                    bpk |-> IF fld = "pred" THEN x.pk
                            ELSE IF b.pred = <<>> THEN "none" ELSE IF Len(b.pred) = 1 THEN "int" ELSE "list"]
-Next == Extend \/ Reorder \/ SetField
+(* rejected assignments: kinds of invalid values per field (the driver concretises them) *)
+RejKinds(fld) ==
+  CASE fld = "country" -> {"name", "lower", "alpha2", "empty", "unknown3", "long", "int"}
+    [] fld = "map"     -> {"none", "int"}
+    [] fld = "map_id"  -> {"zero", "negative", "none"}
+    [] fld = "config"  -> {"zero", "negative"}
+    [] fld = "beh"     -> {"unknown", "lower"}
+    [] fld = "pred"    -> {"zero", "list-zero", "empty-list"}
+    [] fld = "coop"    -> {"text"}
+    [] fld = "ver"     -> {"unknown"}
+Reject == /\ c.kind = "id" /\ (GenMode \/ ~Wide => GenBase(c.f))
+          /\ GenMode => c.f.coop = 0 /\ c.f.country = "ZAM"
+          /\ \E fld \in FieldNames : \E bad \in RejKinds(fld) :
+               c' = [kind |-> "rej", pk |-> c.pk, f |-> c.f, fld |-> fld, bad |-> bad]
+(* the id after the exception of a rejected assignment was caught; with the deviation a text-valued field keeps the
+   rejected value *)
+AfterReject(x) == IF DEV_StoreBeforeValidate /\ x.fld \in {"country", "beh", "ver"}
+                  THEN [Normalize(x.f) EXCEPT ![x.fld] = x.bad] ELSE Normalize(x.f)
+Next == Extend \/ Reorder \/ SetField \/ Reject
 Spec == Init /\ [][Next]_vars
 
 LawValid      == CASE c.kind = "id" -> Valid(c.f) [] c.kind = "sol" -> ValidSol(SolOf(c))
                    [] c.kind = "set" -> ValidSet(c.f, c.fld, c.b)
+                   [] c.kind = "rej" -> Valid(c.f) /\ c.fld \in FieldNames /\ c.bad \in RejKinds(c.fld)
 LawNormal     == c.kind = "id" => NormalLaw(c.f)
 LawGrammar    == c.kind = "id" => GrammarLaw(c.f) /\ GrammarTight(c.f)
 LawParse      == c.kind = "id" => ParseLaw(c.f)
@@ -114,6 +135,7 @@ LawSetPrint   == c.kind = "set" => LET a == After(c.f, c.fld, c.b)
                                    IN /\ a = c.b /\ a[c.fld] # Normalize(c.f)[c.fld] /\ PrintId(a) = Render(a)
                                       /\ (c.fld \notin {"ver"} => PrintId(a) # PrintId(c.f))
                                       /\ GrammarLaw(a) /\ ParseLaw(a) /\ ReprintLaw(a)
+LawRejectAtomic == c.kind = "rej" => RejectAtomicLaw(Normalize(c.f), AfterReject(c))
 LawReparse    == c.kind = "set" => ReparseLaw(c.f, c.fld, c.b)
 (* the int / list spelling of one prediction id is not part of the abstract id: both spellings print alike *)
 LawSpelling   == [][c'.f = c.f]_vars
